@@ -189,6 +189,29 @@ static const std::vector<std::string>& structured() {
   return v;
 }
 
+// every global of the context (each constituent kind, a radical, an unknown name) in every syntactic slot: the place where
+// an identifier of the 'wrong' kind stands decides which visitor meets it (seeded change C04-3: a logical constituent as the
+// whole body of a structure declaration)
+static const std::vector<std::string>& slotCases() {
+  static const std::string IN = "\xE2\x88\x88", XI = "\xCE\xBE", NOT = "\xC2\xAC", ALL = "\xE2\x88\x80";
+  static const std::vector<std::string> v = [] {
+    const std::vector<std::string> globals = { "X1", "X2", "C1", "S1", "D1", "D2", "F1", "P1", "F2", "P2", "A1", "T1", "R1", "D99", "F99", "P99" };
+    std::vector<std::string> out;
+    for (const auto& g : globals) {
+      const std::vector<std::string> slots = {
+        "S7::=" + g, "D7:==" + g, "[\xCE\xB1" + IN + "X1] " + g, "[\xCE\xB1" + IN + g + "] \xCE\xB1", "S7::=" + BOOL + "(" + g + ")", "S7::=" + g + "\xC3\x97X1",
+        g + IN + "X1", "X1" + IN + g, BOOL + "(" + g + ")", g + UNION + "X1", "{" + g + "}", "(" + g + ", " + g + ")", "pr1(" + g + ")", "Pr1(" + g + ")",
+        "card(" + g + ")", "bool(" + g + ")", "debool(" + g + ")", "red(" + g + ")", NOT + g, g + " & 1=1", "1=1 \xE2\x87\x92 " + g,
+        ALL + XI + IN + g + " 1=1", ALL + XI + IN + "X1 " + g, "D{" + XI + IN + g + " | 1=1}", "D{" + XI + IN + "X1 | " + g + "}",
+        "F1[" + g + "]", "P1[" + g + "]", g + "[X1]", "Fi1[" + g + "](S1)", "Fi1[X1](" + g + ")", "R{" + XI + ":=" + g + " | " + XI + "}", "R{" + XI + ":=X1 | " + g + " | " + XI + "}",
+        "I{" + g + " | " + XI + ":" + IN + "X1}", "I{" + XI + " | " + XI + ":" + IN + g + "}", "I{" + XI + " | " + XI + ":=" + g + "}", "I{1 | " + XI + ":" + IN + "X1; " + g + "}",
+        g + "=" + g, g + "+1", g + "<1", g + "\xC3\x97" + g };
+      out.insert(out.end(), slots.begin(), slots.end());
+    }
+    return out; }();
+  return v;
+}
+
 static const rslang::Syntax kHints[] = { rslang::Syntax::UNDEF, rslang::Syntax::MATH, rslang::Syntax::ASCII };
 
 static void exprEntryPoints(World& w, const std::string& text, int hintIdx, const std::string& cls) {
@@ -270,6 +293,7 @@ int main() {
   World w; build(w);
   // corpus: inputs that crashed or failed silently before the fix: commits
   for (const auto& s : structured()) { for (int h = 0; h < 3; ++h) exprEntryPoints(w, s, h, "corpus"); lexposOps(s); }
+  { int k = 0; for (const auto& s : slotCases()) { exprEntryPoints(w, s, deep ? (k % 3) : 1, "slot"); if (deep) { exprEntryPoints(w, s, (k + 1) % 3, "slot"); } ++k; } }
   // fixed lexer position cases: blanks / tabs / newlines / CR before an unknown symbol, multi-byte symbols, empty text
   for (const std::string s : { "", " ", "a @b", "a\n\t @", "\r", "a\r\nb", "\xE2\x88\x80\xCE\xB1\xE2\x88\x88X1 \xCE\xB1=\xCE\xB1\n& a=#", "X1 \\union #", "\xFF", "\xCE", "12,3", "pr1,2,", "Fi1,2[a](b)$" })
     lexposOps(s);
